@@ -721,7 +721,7 @@ def object_cases(rng, deep):
             if name in ("DcspInitialize", "BdspInitialize") and n > 3 and not deep:
                 continue
             for oi, o in enumerate(opts):
-                fams = DENSE_FAMS if (oi == 0 and n <= 3) else [DENSE_FAMS[int(rng.integers(len(DENSE_FAMS)))] for _ in range(2 if deep else 1)]
+                fams = DENSE_FAMS if (oi == 0 and n <= 3) else [DENSE_FAMS[int(rng.integers(len(DENSE_FAMS)))] for _ in range(3 if deep else 2)]
                 if name == "DcspInitialize" and n == 4:
                     fams = fams[:2]
                 for fam in fams:
@@ -892,7 +892,7 @@ def width_hint(spec, data):
 def evaluate(ctx, deep):
     rng = ctx.rng
     selfcheck(ctx)
-    nplace = 5 if deep else 3
+    nplace = 6 if deep else 4
     for spec, data in object_cases(rng, deep):
         pdata = prepared_data(spec, data)
         w, resetful = width_hint(spec, data)
